@@ -118,8 +118,8 @@ def generate(src: str, fn: ast.AST) -> list[dict]:
             par = parents.get(n)
             # only where a wrong variable is a typical slip: call receiver, call argument, subscript base, attribute base
             if isinstance(par, (ast.Attribute, ast.Subscript, ast.Call, ast.keyword, ast.Compare)):
-                for other in swap_pool:
-                    if other != n.id and other in params + loop_vars:
+                for other in params:
+                    if other != n.id and n.id in params:
                         add("name-swap", n, other, note=f"{n.id} -> {other}")
         if isinstance(n, ast.Break):
             add("break-continue", n, "continue")
@@ -232,6 +232,87 @@ def sweep(pid: str, jobs: int = 16, limit: int | None = None, functions: list[st
     }
 
 
+def _run_any(job):
+    """Global sweep: an edit is pinned when any of the properties analysing the function notices it."""
+    pids, rel, fref, m = job
+    first = None
+    for pid in pids:
+        r = _run_p((pid, rel, fref, m))
+        if r["verdict"] in ("reported", "refused"):
+            r["by"] = pid
+            return r
+        first = first or r
+    first["by"] = None
+    return first
+
+
+def _run_p(job):
+    """Like _run, with a per-property base cache (one worker serves several properties)."""
+    pid, rel, fref, m = job
+    from .__main__ import run_property
+
+    base = _W.get("repo")
+    if base is None:
+        base = _W["repo"] = Repo()
+    if ("base", pid) not in _W:
+        try:
+            ctx0 = run_property(pid, "quick", 0, base)
+            _W[("base", pid)] = {i.key() for i in ctx0.instances if not i.ok}
+        except AnalysisError:
+            _W[("base", pid)] = None
+    b = _W[("base", pid)]
+    if b is None:
+        return {**m, "fref": fref, "verdict": "base-error"}
+    src = base.sources[rel]
+    mutated = src[: m["start"]] + m["text"] + src[m["end"]:]
+    try:
+        compile(mutated, rel, "exec")
+    except SyntaxError:
+        return {**m, "fref": fref, "verdict": "no-compile"}
+    try:
+        ctx = run_property(pid, "quick", 0, Repo(overrides={rel: mutated}))
+        broken = [i for i in ctx.instances if not i.ok and i.key() not in b]
+        if broken:
+            return {**m, "fref": fref, "verdict": "reported", "rule": broken[0].rule}
+        return {**m, "fref": fref, "verdict": "silent"}
+    except AnalysisError as error:
+        return {**m, "fref": fref, "verdict": "refused", "rule": str(error)[:100]}
+    except Exception as error:
+        return {**m, "fref": fref, "verdict": "refused", "rule": f"internal: {type(error).__name__}: {error}"[:100]}
+
+
+def global_sweep(jobs: int = 16, props: list[str] | None = None) -> dict:
+    from .__main__ import run_property
+
+    repo = Repo()
+    owners: dict[str, list[str]] = {}
+    props = props or [f"C{n:02d}" for n in range(1, 21)]
+    for pid in props:
+        ctx = run_property(pid, "quick", 0, repo)
+        for fref in ctx.functions_analysed:
+            owners.setdefault(fref, []).append(pid)
+    work = []
+    for fref, pids in sorted(owners.items()):
+        try:
+            f = repo.func(fref)
+        except Exception:
+            continue
+        for m in generate(repo.sources[f.module], f.node):
+            work.append((pids, f.module, fref, m))
+    with ProcessPoolExecutor(max_workers=jobs) as ex:
+        res = list(ex.map(_run_any, work, chunksize=4))
+    for r in res:
+        r.pop("text", None)
+    code = [r for r in res if not r["logging"] and r["verdict"] in ("reported", "refused", "silent")]
+    by_fn = {}
+    for r in code:
+        k = by_fn.setdefault(r["fref"], [0, 0])
+        k[1] += 1
+        k[0] += r["verdict"] != "silent"
+    return {"functions": len(owners), "owners": owners, "edits_in_code": len(code), "pinned": sum(1 for r in code if r["verdict"] != "silent"),
+            "by_function": {k: {"pinned": v[0], "of": v[1]} for k, v in sorted(by_fn.items())}, "silent": [r for r in code if r["verdict"] == "silent"]}
+
+
 def main(argv: list[str]) -> int:
     import argparse
 
@@ -242,6 +323,12 @@ def main(argv: list[str]) -> int:
     ap.add_argument("--out")
     ap.add_argument("--fn", action="append")
     a = ap.parse_args(argv)
+    if a.pid.upper() == "ALL":
+        r = global_sweep(a.jobs)
+        print(f"ALL: {r['functions']} functions, {r['edits_in_code']} code edits, pinned by some check {r['pinned']} ({r['pinned'] / max(1, r['edits_in_code']):.0%})")
+        if a.out:
+            json.dump(r, open(a.out, "w"), indent=1)
+        return 0
     r = sweep(a.pid.upper(), a.jobs, a.limit, a.fn)
     print(f"{r['property']}: {r['functions']} functions, {r['edits_in_code']} code edits, pinned {r['pinned']} ({r['pinned_ratio']:.0%}); logging-only edits {r['logging_edits']}")
     for k, v in r["by_kind"].items():
